@@ -138,6 +138,8 @@ class C01(Check):
             cs.append({"kind": "compose", "phase": "receipt", "L": L})
         for L in range(2, self.compose_max + 1):
             cs.append({"kind": "compose", "phase": "proof", "L": L})
+        for order in range(4):
+            cs.append({"kind": "sequence", "order": order})
         return cs
 
     # ------------------------------------------------------------------
@@ -243,8 +245,59 @@ class C01(Check):
             stats.sample({"shape": s["name"], "choices": list(ctx.choices),
                           "labels": [p[1] for p in ctx.points], "reply": reply}, cap=3)
 
+    def sequence(self, case, stats):
+        """all request shapes one after the other on ONE long-lived protocol + dongle object over a
+        conforming device; what the device ends up holding and every reply must equal those of
+        the same request on fresh objects (differential oracle: no state may leak between
+        requests - caches, memoised results, stale chunk sizes)"""
+        import copy
+        from ..simdev.powhsm import PowHsm
+        vs = []
+        shapes = [s for s in self.shapes if not s["big"]]
+        order = case["order"]
+        idx = list(range(len(shapes)))
+        if order == 1:
+            idx.reverse()
+        elif order == 2:
+            idx = idx[::2] + idx[1::2]
+        elif order == 3:
+            idx = [i for pair in zip(idx, idx) for i in pair]      # every request twice in a row
+        reqs_ = [self.request_and_expectation(shapes[i]) for i in idx]
+
+        def one(proto, dev, req):
+            n = len(dev.held)
+            reply, exc = harness.handle_request(proto, copy.deepcopy(req))
+            return reply, exc, [h for h in dev.held[n:]]
+        fresh = []
+        for req, exp in reqs_:
+            dev = PowHsm(seed=b"c01-seq")
+            proto = harness.make_protocol(World(dev), v1=exp["v1"])
+            fresh.append(one(proto, dev, req))
+        dev = PowHsm(seed=b"c01-seq")
+        w = World(dev)
+        protos = {False: harness.make_protocol(w, v1=False)}
+        protos[True] = harness.make_protocol(w, v1=True)
+        protos[True].hsm2dongle = protos[False].hsm2dongle
+        protos[True].protocol_v2.hsm2dongle = protos[False].hsm2dongle
+        for k, (req, exp) in enumerate(reqs_):
+            stats.evaluations += 1
+            got = one(protos[exp["v1"]], dev, req)
+            same = got == fresh[k]
+            stats.observe(("sequence", order, shapes[idx[k]]["kind"], same), nontrivial=True)
+            if not same:
+                vs.append(Violation(
+                    "C01", "C01:history-dependence:%s" % shapes[idx[k]]["kind"],
+                    dict(case, upto=k), None,
+                    {"position": k, "shape": shapes[idx[k]]["name"], "reply": got[0], "exc": got[1],
+                     "held": got[2]},
+                    {"reply_on_fresh_objects": fresh[k][0], "held": fresh[k][2]}, "history"))
+                break
+        return vs
+
     def run_case(self, case, stats):
         vs = []
+        if case["kind"] == "sequence":
+            return self.sequence(case, stats)
         if case["kind"] in ("shape", "one-shape"):
             s = self.shapes[case["shape"]]
             run, exp = self.driver(s)
